@@ -405,7 +405,7 @@ def fill_bounded():
                 cases += 1
                 filled = []
 
-                names = ['fa', 'fb:you', 'fc:0'][:k]          # plain and instanced section names, as the solver writes them
+                names = ['fb:you', 'fb:spouse', 'fa'][:k]     # two copies of one form class and a plain form, named as the solver writes them
 
                 def stub(base):
                     class StubForm(object):
@@ -432,7 +432,7 @@ def fill_bounded():
                 for ix in perm:
                     sol.add_section(names[ix])
                 # the forms come from the sections of the solution through the real _add_form (incl. 'form:instance' names)
-                p = pdf_filler.PDFFiller(sol, [stub(n.split(':')[0]) for n in names], '/dev/null')
+                p = pdf_filler.PDFFiller(sol, [stub(b) for b in sorted({n.split(':')[0] for n in names})], '/dev/null')
                 files = []
                 p._fill_form = lambda form, fn: (filled.append(form.ix), files.append(fn))
                 import subprocess as sp
@@ -455,7 +455,7 @@ def fill_bounded():
                                clause=f'forms {list(perm)} with needs_filing {needs}: filled {filled}, expected {want}', witness={'order': list(perm), 'needs': list(needs)},
                                replay={'reproduced': True, 'filled': filled, 'expected': want})]
     return [Ob(id='C19/bounded/fill-selects-and-orders', backend='native', bounded=True, cases=cases, function='pdf_filler.py:PDFFiller.fill',
-               note='real fill() and _add_form with stub form classes and a solution whose sections are a plain and two instanced form names: every subset x every order of up to 3 forms: exactly the forms needing filing, once each, sorted by (jurisdiction, sequence_no)')]
+               note='real fill() and _add_form with stub form classes and a solution whose sections are two copies of one form class and a plain form: every subset x every order of up to 3 forms: exactly the forms needing filing, once each, sorted by (jurisdiction, sequence_no)')]
 
 
 class _AfterLoad(Exception):
